@@ -103,6 +103,7 @@ func supervise(p *Prop, tier string) int {
 	journal := filepath.Join(bdir, "journal-"+p.ID+".log")
 	stderrPath := filepath.Join(bdir, "stderr-"+p.ID+".log")
 	os.Remove(journal)
+	os.Remove(ViolationsLog(p.ID))
 	os.RemoveAll(RaceDir(p.ID))
 	os.MkdirAll(RaceDir(p.ID), 0o755)
 	errf, _ := os.Create(stderrPath)
@@ -178,6 +179,13 @@ func supervise(p *Prop, tier string) int {
 		c.Violation("crash/"+frame, "process running casket code crashed: "+firstLineWith(tail, "panic:", "fatal error:"),
 			map[string]interface{}{"last_journalled_cases": last, "stderr_tail": tail})
 		return c.Finish()
+	}
+	if b, err := os.ReadFile(ViolationsLog(p.ID)); err == nil && len(bytes.TrimSpace(b)) > 0 {
+		// the monitor did not live to finish the run (the code under test may
+		// have taken its standard error or its process with it), but it had
+		// reported violations with replays before: those stand
+		fmt.Printf("NOTE property=%s monitor exited with code %d after reporting %d violation(s) (see %s); the run was not completed\n", p.ID, code, bytes.Count(b, []byte("\n")), stderrPath)
+		return 1
 	}
 	fmt.Printf("BROKEN-RUN property=%s monitor exited with code %d (see %s)\n%s\n", p.ID, code, stderrPath, tailFile(stderrPath, 30))
 	return 3
